@@ -487,9 +487,21 @@ var c01Comps = [][]string{
 }
 
 func c01Completer(which int) func(line []rune, cur int) readline.Completions {
+	return c01CompleterOpt(which, true)
+}
+
+// c01CompleterOpt: with merged == false the completer never merges two sets of candidates. The
+// order in which the library lists the candidates of merged, partly unsorted sets varies from
+// one call to the next (map iteration), which a differential check over repeated runs of one
+// script (C05) must not take for an effect of its delivery schedules.
+func c01CompleterOpt(which int, merged bool) func(line []rune, cur int) readline.Completions {
 	return func(line []rune, cur int) readline.Completions {
 		vals := c01Comps[which%len(c01Comps)]
-		switch which % 5 {
+		sel := which % 5
+		if !merged && sel >= 3 {
+			sel = which % 3
+		}
+		switch sel {
 		case 0:
 			return readline.CompleteValues(vals...)
 		case 3:
